@@ -381,8 +381,24 @@ func runC01(r *Run) {
 	r.rule("R5", "sibling agreement of the default and custom-context scanners on the dispatch alphabet (E5)", func() {
 		withoutHelpers(func() { // attribution rule: each construct belongs to the one function that contains it
 			for _, pair := range [][2]string{{"(*App).next", "(*App).nextCustom"}, {"(*App).methodExist", "(*App).methodExistCustom"}} {
-				a := restrict(g.actionSet(r.Fn("", pair[0]), alias), nextAlphabet)
-				b := restrict(g.actionSet(r.Fn("", pair[1]), alias), nextAlphabet)
+				// what a scanner does includes what the helpers do that only it calls (`tree := app.routesFor(m, hash)`)
+				setOf := func(name string) map[string]ssa.Instruction {
+					f := r.Fn("", name)
+					acts := g.actionSet(f, alias)
+					for _, hl := range privateHelpersOf(f) {
+						if n := strings.Replace(short(hl.String()), "fiber.", "", 1); n == "(*App).next" || n == "(*App).nextCustom" || n == "(*App).methodExist" || n == "(*App).methodExistCustom" {
+							continue // a scanner of its own: compared with its own sibling
+						}
+						for k, v := range g.actionSet(hl, alias) {
+							if _, ok := acts[k]; !ok {
+								acts[k] = v
+							}
+						}
+					}
+					return restrict(acts, nextAlphabet)
+				}
+				a := setOf(pair[0])
+				b := setOf(pair[1])
 				r.count("alphabet actions", len(a)+len(b))
 				onlyA, onlyB := actionDiff(a, b)
 				for _, x := range onlyA {
